@@ -454,7 +454,7 @@ CHECKS = {
         "exhaustive_quick": False,
         "subs": [
             {"name": "grid", "test": "TestGrid", "quick": None, "thorough": None, "shards": 4, "enum": True},
-            {"name": "drawn", "test": "TestDrawn", "quick": 40, "thorough": 150, "shards": 16},
+            {"name": "drawn", "test": "TestDrawn", "quick": 160, "thorough": 1200, "shards": 16},
         ],
     },
     "C16": {
